@@ -118,6 +118,7 @@ func c08Key(k int) reflect.Type {
 }
 
 func c08Cache(c *Ctx, i int, r *gen.Rng) {
+	defer hookSchedule(c, i, pcacheHooks)()
 	G := r.Range(2, 12)
 	K := []int{1, 2, 3, 5, 8, 40}[r.Intn(6)]
 	M := 160 / G
@@ -344,6 +345,7 @@ var c08KeyRe = regexp.MustCompile(`"[a-z][a-z0-9_]*":`)
 var c08FreshKeyRe = regexp.MustCompile(`"fresh_field_[0-9]+":`)
 
 func c08Codecs(c *Ctx, i int, r *gen.Rng) {
+	defer hookSchedule(c, i, pcacheHooks)()
 	G := r.Range(2, 16)
 	K := r.Range(1, 8)
 	var calls []*c08Call
